@@ -25,7 +25,8 @@ ASSUMPTIONS = [
     'the global Dynamic.time_fn Time instance is used (each shard is its own process; state restored per case)',
 ]
 REQUIRED = {'reads': 3000, 'revisit_reads': 500, 'inspections': 300, 'contexts': 100, 'pushpops': 100, 'reads_raised': 20,
-            'sampled_reads': 100, 'sampled_cross_checks': 20}
+            'sampled_reads': 100, 'sampled_cross_checks': 20,
+            'class_level_generator_sets': 50}
 
 _st = {}
 
@@ -147,6 +148,7 @@ def _run(idx, rng, P, rep, param, ng, T, use_frac):
               y=param.Dynamic(default=None), z=param.Number(default=1.0, bounds=(None, None)))
     cls = type(f'D{idx}', (param.Parameterized,), ns)
     insts = []
+    follows_class = set()   # instances without a generator of their own for x: they read through the class-level one
     slot_spec = {}      # (inst index, pname) -> spec
     for i in range(rng.randint(2, 4)):
         kw = {}
@@ -157,6 +159,8 @@ def _run(idx, rng, P, rep, param, ng, T, use_frac):
                 slot_spec[(i, pn)] = sp
             elif pn == 'x' and class_spec:
                 slot_spec[(i, pn)] = class_spec
+            elif pn == 'x':
+                follows_class.add(i)
         o = cls(**kw) if rng.random() < 0.5 else cls()
         if not kw or any(getattr(type(o), '__name__') and False for _ in ()):
             pass
@@ -166,7 +170,7 @@ def _run(idx, rng, P, rep, param, ng, T, use_frac):
                 setattr(o, pn, g)
         insts.append(o)
     slots = sorted(slot_spec)
-    if not slots:
+    if not slots and not follows_class:
         rep.case(('empty',), False)
         return
     table = {}
@@ -231,6 +235,21 @@ def _run(idx, rng, P, rep, param, ng, T, use_frac):
         while budget[0] > 0:
             budget[0] -= 1
             c = rng.random()
+            if (not slots or rng.random() < 0.04) and follows_class and depth == 0:
+                # (top level only: replacing a generator between a state push and its pop is outside the statement)
+                # a generator assigned at class level after instances exist: instances without their own value share it
+                sp = rng.choice(specs)
+                kinds.append('class_gen')
+                rep.count('class_level_generator_sets')
+                trace.append(('class-level set', repr(sp)))
+                cls.x = make_gen(ng, sp)
+                for i in follows_class:
+                    slot_spec[(i, 'x')] = sp
+                    last_read.pop((i, 'x'), None)
+                slots[:] = sorted(slot_spec)
+                continue
+            if not slots:
+                continue
             if c < 0.22:
                 t = rtime()
                 kinds.append('jump')
@@ -314,7 +333,7 @@ def _run(idx, rng, P, rep, param, ng, T, use_frac):
                 trace.append(('pop', i))
                 for s in mine:
                     v = o.param.inspect_value(s[1])
-                    if v != snap[s] and not shared_gen(s):
+                    if v != snap[s]:
                         viol('pop-did-not-restore-cache', f'inst{i}.{s[1]} cached value before push {snap[s]!r}, after pop {v!r}')
                     # the model of "last value" follows the restored cache
                     if s in last_read or snap[s] is not None:
